@@ -26,7 +26,9 @@ CONSTANTS K, MaxLeaves, MaxDepth, MaxN,
           ScratchSize,  \* "code": K=4 -> 4*A, K=2 -> max(A, 2) ; "asfound": K=2 -> A
           Finished,     \* "last" (code): symbols whose code has ended are moved behind the continuing ones ; "first":
                         \* an equivalent design (the next level filters them out anyway: MC_HuffWM_k4_equiv_finished must PASS)
-          EarlyExit     \* TRUE (code): get stops as soon as its position falls outside the level ; FALSE: a seeded change
+          EarlyExit,    \* TRUE (code): get stops as soon as its position falls outside the level ; FALSE: a seeded change
+          GrowLoop      \* "while" (code): levels are opened until the next code length is reached ; "if": at most one
+                        \* level per symbol - a seeded change that is only wrong when the code lengths have a gap
 
 FR == IF K = 4 THEN 2 ELSE 1          \* bits per level
 MASK == K - 1
@@ -106,7 +108,9 @@ RECURSIVE Grow(_, _, _, _)
 Grow(c, j, m, l) ==
     IF IsErr(c) THEN [c |-> c, m |-> m, l |-> l]
     ELSE IF LenBits(j) > l
-    THEN Grow(Spread(c, j, m, l, j), j, K * m - (K - 1) * j, l + FR)
+    THEN (IF GrowLoop = "while"
+          THEN Grow(Spread(c, j, m, l, j), j, K * m - (K - 1) * j, l + FR)
+          ELSE [c |-> Spread(c, j, m, l, j), m |-> K * m - (K - 1) * j, l |-> l + FR])
     ELSE [c |-> c, m |-> m, l |-> l]
 
 \* reverse the FR-bit digits of x (l bits)
